@@ -170,4 +170,18 @@ theorem C20_witness_guarded_dealloc :
     let s := a.collectLog [] (some true) rel
     s.a.owned = [] ∧ s.dropped = [0, 1] ∧ s.released = [1] ∧ s.a.bytes = 0 := by decide
 
+/-- **C20_full_collect_idempotent** (round 5).  Garbage is reclaimed *completely* by one full collection:
+a second full collection run directly afterwards, with the same roots, lets go of nothing — the
+allocator owns exactly the same objects before and after it (for every heap, reachable or not by a
+valid history).  So nothing unreachable survives a full collection to be found by the next one. -/
+theorem C20_full_collect_idempotent (a : A) (R : List Nat) (x : Nat) :
+    x ∈ ((a.collect R (some true)).collect R (some true)).owned ↔ x ∈ (a.collect R (some true)).owned := by
+  rw [full_collect_owned _ R (some true) rfl]
+  constructor
+  · exact fun h => h.1
+  · intro h
+    refine ⟨h, ?_⟩
+    have hr := ((full_collect_owned a R (some true) rfl x).mp h).2
+    exact reach_of_edges_eq (a := a.collect R (some true)) (b := a) (fun _ => rfl) hr
+
 end LaytheVerif.C20
